@@ -32,25 +32,6 @@ func counterBoundaryCases(o *drv.Out) {
 		doc  bool
 	}
 	bounds := []bnd{{"2^32", 1<<32 - 1, false}, {"2^63", 1 << 63, false}, {"2^31", 1<<31 - 1, false}, {"2^16", 1<<16 - 1, false}, {"2^64-1", ^uint64(0), true}}
-	// ---- direct sweep of the real incrementNonce around each boundary (through the hook)
-	o.Case("nonce-sweep")
-	for _, bd := range bounds {
-		c := bd.b - 6
-		for i := 0; i < 14; i++ {
-			next := p2p.VerifIncrementNonce(c)
-			o.Op(fmt.Sprintf("inc %d", c), fmt.Sprint(next))
-			o.Count("op:inc")
-			if next <= c {
-				if bd.doc && c == ^uint64(0) {
-					o.Count("counter-boundary:2^64-1:documented-wrap-observed")
-				} else {
-					// ORACLE: below 2^64-1 the frame counter only ever grows — a value can never come back
-					o.Fail("C17:nonce-counter-starts-over:"+bd.name, fmt.Sprintf("incrementNonce(%d) = %d: the counter of a direction starts over, every nonce used since the handshake will be used again under the same key", c, next), map[string]any{"counter": c, "next": next})
-				}
-			}
-			c = next
-		}
-	}
 	// ---- replay across the boundary on real connections
 	for _, bd := range bounds {
 		for _, m := range []uint64{0, 1, 3} {
@@ -103,6 +84,25 @@ func counterBoundaryCases(o *drv.Out) {
 			if m == 1 && bd.name == "2^32" {
 				o.Sample(name + ": " + strings.Join(s.ops, "; "))
 			}
+		}
+	}
+	// ---- direct sweep of the real incrementNonce around each boundary (through the hook)
+	o.Case("nonce-sweep")
+	for _, bd := range bounds {
+		c := bd.b - 6
+		for i := 0; i < 14; i++ {
+			next := p2p.VerifIncrementNonce(c)
+			o.Op(fmt.Sprintf("inc %d", c), fmt.Sprint(next))
+			o.Count("op:inc")
+			if next <= c {
+				if bd.doc && c == ^uint64(0) {
+					o.Count("counter-boundary:2^64-1:documented-wrap-observed")
+				} else {
+					// ORACLE: below 2^64-1 the frame counter only ever grows — a value can never come back
+					o.Fail("C17:nonce-counter-starts-over:"+bd.name, fmt.Sprintf("incrementNonce(%d) = %d: the counter of a direction starts over, every nonce used since the handshake will be used again under the same key", c, next), map[string]any{"counter": c, "next": next})
+				}
+			}
+			c = next
 		}
 	}
 }
